@@ -6,7 +6,7 @@ operator commands.  A candidate is kept only if replaying it still shows a
 violation of the *same class*.  Bounded number of re-executions."""
 import copy
 
-from .ast import to_text, all_bodies, sub_bodies, number_stmts
+from .qast import to_text, all_bodies, sub_bodies, number_stmts
 
 MAX_RUNS = 220
 
